@@ -331,6 +331,8 @@ impl Sys for FSys {
 #[derive(Serialize, Deserialize, Clone, Debug, PartialEq)]
 pub enum LEv {
     Data(u8),
+    /// the session's previous packet once more (a carousel repetition the receiver discards): still activity
+    Dup(u8),
     Close(u8),
     /// advance the virtual clock by 3 s (session timeout is 5 s), then cleanup
     TickCleanup,
@@ -370,12 +372,20 @@ pub fn run_listener(hist: &[LEv], deviations: &[u64]) -> (Option<(String, String
         let mut t_s = 0u64;
         let mut last_pkt = [0u64; 2];
         let mut open = [false; 2];
+        let mut last_id: [Option<u32>; 2] = [None, None];
         for (step, ev) in hist.iter().enumerate() {
             match ev {
-                LEv::Data(s) => {
+                LEv::Data(s) | LEv::Dup(s) => {
                     last_pkt[*s as usize] = t_s;
                     open[*s as usize] = true;
-                    id += 1;
+                    let id = match (ev, last_id[*s as usize]) {
+                        (LEv::Dup(_), Some(i)) => i,
+                        _ => {
+                            id += 1;
+                            id
+                        }
+                    };
+                    last_id[*s as usize] = Some(id);
                     let (e, tsi) = &sessions[*s as usize];
                     let _ = rx.push(e, &probe_packet(*tsi, id), now);
                     // the packet was accepted by a session: that session must be open now
@@ -602,7 +612,7 @@ pub fn run(thorough: bool) -> i32 {
     }
     // (3)
     let len = if thorough { 7 } else { 5 };
-    let alphabet = [LEv::Data(0), LEv::Data(1), LEv::Close(0), LEv::Close(1), LEv::TickCleanup];
+    let alphabet = [LEv::Data(0), LEv::Data(1), LEv::Dup(0), LEv::Close(0), LEv::Close(1), LEv::TickCleanup];
     let mut hists: Vec<Vec<LEv>> = vec![vec![]];
     let mut all: Vec<Vec<LEv>> = Vec::new();
     for _ in 0..len {
